@@ -11,7 +11,9 @@ from vlib.batch import Batch, BudgetExceeded, cpu_budget, unjson
 PROPERTY = 'C05'
 LEVEL = 'exploration'
 RULE = ('fixed corpus (straight chain, fan-out, nested complete-requesting events, each abnormal descendant kind: cancelled before dispatch, '
-        'stopped, raising, fired from a generator continuation step, several roots at once, complete_channels override) + seeded random '
+        'stopped, raising, fired from a generator continuation step, several roots at once, complete_channels override, generator handlers '
+        'suspended in call()/wait() with and without timeouts - timeout caught and followed by a plain step, by another call()/wait(), with a '
+        'second generator handler on the same event) + seeded random '
         'finite event trees (fan-out <= 3, depth <= 4); every program runs under the real run() in the checking thread; non-trivial = a '
         'complete-requesting event whose closure has >= 3 events and depth >= 2; distinct = hash of the program')
 ASSUMPTIONS = [
@@ -20,7 +22,8 @@ ASSUMPTIONS = [
     'events cancelled only before their dispatch; a cancelled event has no handler steps',
 ]
 REQUIRED = ['complete_requested', 'nested_complete', 'descendant_cancelled', 'descendant_stopped', 'descendant_raised',
-            'descendant_from_generator_step', 'several_roots_in_flight', 'complete_channels_override', 'closure_depth_3plus']
+            'descendant_from_generator_step', 'several_roots_in_flight', 'complete_channels_override', 'closure_depth_3plus',
+            'handler_suspended_in_call_or_wait', 'call_or_wait_timed_out_in_closure', 'suspended_again_right_after_timeout']
 REQUIRED_OBLIGATIONS = ['COMPLETE_ONCE', 'COMPLETE_AFTER_CLOSURE', 'COMPLETE_EVENTUALLY']
 WORKER_TIMEOUT = {'quick': 300, 'thorough': 1500}
 ENGINE = 'stepping-driver'
@@ -74,7 +77,7 @@ def evaluate(case, w):
     fbd = {}
     for i, e in enumerate(w.log):
         k = e[0]
-        if k in ('HS', 'HE', 'GY', 'GR', 'P', 'PX', 'D'):
+        if k in ('HS', 'HE', 'GY', 'GR', 'P', 'PX', 'D', 'SUSP', 'RX'):
             steps.setdefault(e[1], []).append(i)
         elif k == 'FBF' and e[1] == 'complete':
             fbf.setdefault(e[2], []).append(i)
@@ -85,11 +88,17 @@ def evaluate(case, w):
     # an event is "fired from a generator continuation step" if its F entry follows a GR of (parent, by)
     resumed = set()
     for e in w.log:
-        if e[0] == 'GR':
+        if e[0] in ('GR', 'RX'):
             resumed.add((e[1], e[2]))
         elif e[0] == 'F' and e[2] is not None and (e[2], e[3]) in resumed:
             from_gen_step.add(e[1])
     stopped = {e[1] for e in w.log if e[0] == 'STOP'}
+    susp = {}      # event -> [(log index, kind)] of its handlers' SUSP / RX entries
+    for i, e in enumerate(w.log):
+        if e[0] == 'SUSP':
+            susp.setdefault(e[1], []).append((i, e[2], 'SUSP'))
+        elif e[0] == 'RX':
+            susp.setdefault(e[1], []).append((i, e[2], e[5]))
     raised = {e[1] for e in w.log if e[0] == 'PX'}
     roots_complete = [u for u, info in w.events.items() if info['flags'].get('complete') and info['parent'] is None]
     if len(roots_complete) >= 2:
@@ -123,6 +132,17 @@ def evaluate(case, w):
                 feats.add('descendant_from_generator_step')
         if uid in raised:
             feats.add('descendant_raised')
+        for u in cl:
+            per_handler = {}
+            for i, hid, what in susp.get(u, ()):
+                per_handler.setdefault(hid, []).append(what)
+            for seq in per_handler.values():
+                feats.add('handler_suspended_in_call_or_wait')
+                if 'TIMEOUT' in seq:
+                    feats.add('call_or_wait_timed_out_in_closure')
+                if any(a == 'TIMEOUT' and b == 'SUSP' for a, b in zip(seq, seq[1:])):
+                    # RX TIMEOUT directly followed by the next SUSP: nothing else was logged by that handler in between?
+                    feats.add('suspended_again_right_after_timeout')
         marks |= feats
         if info['spec'].get('complete_channels'):
             marks.add('complete_channels_override')
@@ -188,10 +208,62 @@ def corpus():
     # generator raising in the closure
     cs.append({'name': 'gen-raise', 'handlers': [HD(1, 'a', [['fire', {'name': 'b'}]]), HD(2, 'b', [['yield', None], ['raise']], gen=True),
                                                  HD(3, 'b', [['fire', {'name': 'c'}]]), HD(4, 'c', [])], 'fires': [{'name': 'a', 'flags': C}]})
+    # generator handlers suspended in call()/wait() inside the closure; the callee outlasts the timeout
+    slow = HD(8, 'slow', [['yield', None]] * 6 + [['fire', {'name': 'late'}]], gen=True)
+    tail = [HD(9, 'quick', [['fire', {'name': 'd'}]]), HD(10, 'd', []), HD(11, 'late', [['fire', {'name': 'd'}]]), HD(12, 'after', [['fire', {'name': 'd'}]])]
+    for nm, body, extra in [
+            ('call-no-timeout', [['call', {'name': 'slow'}, {}], ['fire', {'name': 'after'}]], []),
+            ('call-timeout-then-step', [['call', {'name': 'slow'}, {'timeout': 2}], ['yield', None], ['fire', {'name': 'after'}]], []),
+            ('call-timeout-then-call', [['call', {'name': 'slow'}, {'timeout': 2}], ['call', {'name': 'quick'}, {}], ['fire', {'name': 'after'}]], []),
+            ('wait-timeout-then-wait', [['wait', {'name': 'slow'}, {'timeout': 2}], ['wait', {'name': 'quick'}, {}], ['fire', {'name': 'after'}]], []),
+            ('call-timeout-then-call-timeout', [['call', {'name': 'slow'}, {'timeout': 1}], ['call', {'name': 'slow'}, {'timeout': 2}],
+                                                ['call', {'name': 'quick'}, {'timeout': 9}], ['fire', {'name': 'after'}]], []),
+            ('call-timeout-then-call-2handlers', [['call', {'name': 'slow'}, {'timeout': 2}], ['call', {'name': 'quick'}, {}], ['fire', {'name': 'after'}]],
+             [HD(2, 'a', [['yield', None]] * 14 + [['fire', {'name': 'late'}]], gen=True)]),
+            ('call-timeout-then-call-2handlers-first', [['call', {'name': 'slow'}, {'timeout': 2}], ['call', {'name': 'quick'}, {}], ['fire', {'name': 'after'}]],
+             [HD(2, 'a', [['yield', None]] * 14 + [['fire', {'name': 'late'}]], gen=True, prio=1)])]:
+        cs.append({'name': nm, 'handlers': [HD(1, 'a', body, gen=True)] + extra + [slow] + tail, 'fires': [{'name': 'a', 'flags': C}]})
     return cs
 
 
+def gen_suspending_case(rng):
+    """A complete-requesting root whose generator handlers suspend in call()/wait() - some with timeouts the callee outlasts."""
+    handlers = [HD(20, 'slow', [['yield', None]] * rng.randint(2, 7) + [['fire', {'name': 'late'}]], gen=True),
+                HD(21, 'quick', [['fire', {'name': 'd'}]] if rng.random() < 0.7 else [['yield', 'q'], ['fire', {'name': 'd'}]], gen=rng.random() < 0.5),
+                HD(22, 'd', []), HD(23, 'late', [['fire', {'name': 'd'}]] if rng.random() < 0.5 else []),
+                HD(24, 'after', [['fire', {'name': 'd', 'flags': dict(C)}]] if rng.random() < 0.3 else [])]
+    if not handlers[1]['gen']:
+        handlers[1]['body'] = [a for a in handlers[1]['body'] if a[0] != 'yield']
+    hid = 0
+    for _ in range(rng.randint(1, 3)):
+        hid += 1
+        body = []
+        for _ in range(rng.randint(1, 4)):
+            r = rng.random()
+            if r < 0.55:
+                opts = {} if rng.random() < 0.35 else {'timeout': rng.choice([1, 2, 3, 5, 12])}
+                spec = {'name': rng.choice(['slow', 'slow', 'quick'])}
+                if rng.random() < 0.2:
+                    spec['flags'] = dict(C)
+                body.append([rng.choice(['call', 'call', 'wait']), spec, opts])
+            elif r < 0.7:
+                body.append(['yield', rng.choice([None, 'v'])])
+            elif r < 0.9:
+                body.append(['fire', {'name': rng.choice(['after', 'quick', 'd'])}])
+            else:
+                body += [['yield', None]] * rng.randint(3, 12)
+        if rng.random() < 0.1:
+            body.append(['raise'])
+        handlers.append(HD(hid, 'a', body, gen=True, prio=rng.choice([0, 0, 1])))
+    fires = [{'name': 'a', 'flags': dict(C)}]
+    if rng.random() < 0.3:
+        fires.append({'name': rng.choice(['a', 'slow']), 'flags': dict(C) if rng.random() < 0.7 else {}})
+    return {'handlers': handlers, 'fires': fires}
+
+
 def gen_case(rng):
+    if rng.random() < 0.25:
+        return gen_suspending_case(rng)
     nlev = rng.randint(2, 5)
     names = {lv: ['e%d_%d' % (lv, i) for i in range(rng.randint(1, 2))] for lv in range(nlev)}
     handlers = []
